@@ -13,6 +13,7 @@ Record c12_case := {
   c_start : list N;
   c_bound : nat;                    (* jump while counter < bound *)
   c_emit : bool;
+  c_limit : nat;                    (* > 0: the loop is followed by limit(c_limit) *)
   o_closed : bool;
   o_rows : list N;                  (* vertex ids delivered, sorted *)
   o_leak : N }.
@@ -40,6 +41,16 @@ Definition sortN (l : list N) : list N := fold_right insert [] l.
 Fixpoint listN_eqb (a b : list N) : bool :=
   match a, b with [], [] => true | x :: r, y :: r' => (x =? y) && listN_eqb r r' | _, _ => false end.
 
+(* a, b sorted: a is a sub-multiset of b *)
+Fixpoint sub_sorted (b a : list N) : bool :=
+  match b with
+  | [] => match a with [] => true | _ => false end
+  | y :: r' => match a with
+               | [] => true
+               | x :: r => if x =? y then sub_sorted r' r else if y <? x then sub_sorted r' a else false
+               end
+  end.
+
 Definition spec_rows (c : c12_case) : list N :=
   sortN (map fst (loop_spec (body_of c) (cond_of c) (c_emit c) (rank_of c) (input_of c))).
 (* the protocol model itself, run on the same input under two schedulers *)
@@ -48,15 +59,22 @@ Definition model_rows (c : c12_case) (pick : nat -> nat) : option (list N) :=
   match l_phase s with PClosed => Some (sortN (map fst (l_out s))) | _ => None end.
 Definition small (c : c12_case) : bool := (length (spec_rows c) <? 1500)%nat.
 
+(* the rows the property allows: all of the loop's rows, or, behind a limit, any c_limit of them (which ones depends on the
+   schedule) -- and the stream closes *)
+Definition rows_ok (c : c12_case) : bool :=
+  match c_limit c with
+  | O => listN_eqb (o_rows c) (spec_rows c)
+  | l => Nat.eqb (length (o_rows c)) (Nat.min l (length (spec_rows c))) && sub_sorted (spec_rows c) (o_rows c)
+  end.
 Definition agrees (c : c12_case) : bool :=
-  o_closed c && listN_eqb (o_rows c) (spec_rows c)
+  o_closed c && rows_ok c
   && (if small c then
         match model_rows c (fun i => i mod 4)%nat, model_rows c (fun i => (i * 7 + i / 3) mod 4)%nat with
         | Some a, Some b => listN_eqb a (spec_rows c) && listN_eqb b (spec_rows c)
         | _, _ => false
         end
       else true).
-Definition spec_ok (c : c12_case) : bool := o_closed c && listN_eqb (o_rows c) (spec_rows c) && (o_leak c =? 0).
+Definition spec_ok (c : c12_case) : bool := o_closed c && rows_ok c && (o_leak c =? 0).
 
 Fixpoint idx_filter {A} (f : A -> bool) (l : list A) (i : nat) : list nat :=
   match l with [] => [] | x :: r => if f x then i :: idx_filter f r (S i) else idx_filter f r (S i) end.
